@@ -24,7 +24,7 @@ CLAIMS = {
             'Classes: honest, nonwriter, copied-id, copied-identity-block, foreign-key-sig, foreign-type; routes: local, announce, exchange, manual sync, ancestor of a colluding head; lists: explicit, wildcard, empty, creator.', '6 C03'),
     'C04': ('tla-auth', 'spec/Auth.tla (Genuine: untampered, correctly addressed, this database); every single-field mutation of the wire form of a valid entry (15 fields) delivered as head with the original hash, as head re-hashed, and as ancestor of a colluding head; mutants classified with the library\'s own encoder and verifier.',
             '15 fields x 3 positions x 1-3 store types; the genuine entry must still be accepted afterwards.', '6 C04'),
-    'C05': ('tla-writepath', 'spec/WritePath.tla (writers, replication batches, Crash enabled in every state, Recover) model-checked: Durable, NoPhantom; every forced behaviour\'s recorded effect log is cut at every prefix, a fresh instance is started on exactly that durable state and loaded, and the recovered log is compared with the acknowledgements issued before the cut; clean close/reopen with identity and post-restart write.',
+    'C05': ('tla-writepath', 'spec/WritePath.tla (writers, replication batches, Crash enabled in every state, Recover) model-checked: Durable, NoPhantom; every forced behaviour\'s recorded effect log is cut at every prefix, a fresh instance is started on exactly that durable state and loaded, and the recovered log is compared with the acknowledgements issued before the cut; clean close/reopen with identity and post-restart write, run both on the simulated cache and with the cache (leveldb) and keystore in a real directory.',
             'Bounds: <=3-4 writers, remote chain of 3, all prefixes of the effect log (10-25 effects per behaviour). Effects are durable once their call returns (assumption of the property).', '6 C05'),
     'C06': ('tla-core', 'spec/Core.tla invariants ViewMatches (index as the code computes it = LWW replay) and CausalOrder model-checked exhaustively; behaviours replayed on real key-value replicas with Get/All compared with the specification state after every step; implementation traces validated against CoreTrace.tla (ViewConforms).',
             'Bounds as C01; keys/values concretised from VERIF_SEED (unicode, spaces, binary and empty values).', '6 C06'),
